@@ -24,7 +24,7 @@
          chk_C04 ifs h wakes (map obs_of (run_history ifs h)) = true ). *)
 From Coq Require Import List NArith Bool.
 From Mdns Require Import Res Bytes Rec Wire Txt Cache Browser C03Spec BrowserSpec BrowserKnown CacheProofs
-  CacheInvProofs BrowserStepProofs SpecTrackProofs BrowserProofs C05SafetyProofs C04StepProofs C04ScheduleProofs C04PendingProofs AouCasesProofs C04OrderProofs C05AgainProofs C05TimelyProofs C04CompleteProofs BrowserExamples.
+  CacheInvProofs BrowserStepProofs SpecTrackProofs BrowserProofs C05SafetyProofs C04StepProofs C04ScheduleProofs C04PendingProofs AouCasesProofs C04OrderProofs C05AgainProofs C05TimelyProofs C04CompleteProofs C04FollowupProofs BrowserExamples.
 Import ListNotations.
 Open Scope N_scope.
 
@@ -379,6 +379,78 @@ Example C04_complete_is_up_example :
   /\ map (complete_class ex_ifs) [lastsec_hist; srvtgt_hist] = [false; false].
 Proof. exact complete_example. Qed.
 
+(* ---- round 9: the follow-up clause; what is and is not excluded by theorem ----------------------------------
+
+   Failure kinds of chk_C04 (viol_C04) and their status over ALL histories of the model:
+     F04_order     excluded by theorem outside known_browse_expiring      (C04_resolved_only_after_found_partial)
+     F04_complete  excluded by theorem outside complete_class             (C04_complete_is_up_partial)
+     F04_followup, F04_many
+                   NOT excluded as statements about viol_C04.  Proved instead, over all histories, is the
+                   clause in the property's own terms on the model's trace (C04_followups_as_specified_partial
+                   and the three theorems after it): found and not resolved => a try runs in that iteration
+                   or the instance is pending with try 1..3 queued, due within 500 ms; a queued try runs in
+                   the first iteration at or after its due time; a try that runs asks exactly the question the
+                   checker expects on the checker's own cache; tries 1 and 2 are followed by the next one
+                   500 ms later, try 3 by none (C04_followup_step ...); the chain ends early without PTR.
+                   What is missing for the viol_C04 statement is the correspondence with the checker's
+                   bookkeeping: (i) non-stale obligation (inst, due, n) <-> queued (due, RResolve inst n),
+                   (ii) stale obligation => a queued try due not later, (iii) pending => open episode or up
+                   or obligation.  (iii) does not hold as it stands: an instance found on a second channel
+                   while it is still up on the first (no obligation, not open) and invalid is made pending;
+                   stop_browse of the first name then leaves it pending, neither up nor open - the checker
+                   would open a non-stale obligation for the next ServiceFound while the model continues the
+                   old series.  So (iii) needs a further class (stop_browse while an instance is up under
+                   two names), and (iv) F04_many needs "no two found instances with the same lower-cased
+                   labels".  Monitor-checked on every generated history; no such failure has been observed.
+     F04_labels    not proved (needs the datagram hypothesis "decode agrees with the reference parser on PTR
+                   targets", see PARTIAL in tools/props/c04.py)
+     F04_wake      outside the model (no timers)
+   New class found by this proof (the hypothesis "ServiceFound => the instance is in `updated` with a live
+   PTR" could not be discharged; run on the daemon, which agrees): known_found_withdrawn, finding
+   C04-found-withdrawn-in-same-message - a PTR record and its goodbye in ONE packet: ServiceFound is
+   sent, resolve_updated_instances skips the (now expiring) PTR, no follow-up series starts. *)
+Theorem C04_followups_as_specified_partial : forall ifs h it i,
+  wf_history (h ++ [it]) = true ->
+  let s := model_after ifs init_st h in
+  reads_found_withdrawn ifs s (i_now it) (deliveries_in_order (i_dgrams it)) = false ->
+  NR i (snd (iterate ifs s it)) -> FD i (snd (iterate ifs s it)) ->
+  (exists n, In (i, n) (due_tries ifs s it))
+  \/ (pend i (fst (iterate ifs s it))
+      /\ exists t n, In (t, RResolve i n) (s_retrans (fst (iterate ifs s it)))
+                     /\ i_now it < t /\ t <= i_now it + 500 /\ 1 <= n /\ n <= 3).
+Proof. exact found_unresolved_gets_try. Qed.
+
+(* from any state: found (or already pending) and not resolved => pending afterwards or tried *)
+Theorem C04_iteration_found_unresolved : forall ifs s it i,
+  reads_found_withdrawn ifs s (i_now it) (deliveries_in_order (i_dgrams it)) = false ->
+  NR i (snd (iterate ifs s it)) -> (pend i s \/ FD i (snd (iterate ifs s it))) ->
+  pend i (fst (iterate ifs s it)) \/ exists n, In (i, n) (due_tries ifs s it).
+Proof. exact iterate_found_unresolved. Qed.
+
+(* a queued try runs in the first iteration whose time is at or after its due time *)
+Theorem C04_queued_due_is_tried : forall ifs s it t i n,
+  In (t, RResolve i n) (s_retrans s) -> t <= i_now it -> In (i, n) (due_tries ifs s it).
+Proof. exact queued_due_is_tried. Qed.
+
+(* a try that runs asks the question chk_C04 expects, judged on the checker's spec cache after the
+   commands of that iteration (the cache step04 passes to expected_followup) *)
+Theorem C04_tried_asks_expected : forall ifs s sp it i n,
+  tracks s sp -> In (i, n) (due_tries ifs s it) ->
+  match expected_followup (sp_c (snd (fst (iter_snaps ifs sp it)))) i with
+  | Some (nm, ty) => In (nm, ty) (questions_of (snd (iterate ifs s it)))
+  | None => True
+  end.
+Proof. exact tried_asks_expected. Qed.
+
+Theorem C04_known_found_withdrawn_witness :
+  wf_history withdrawn_hist = true /\ known_found_withdrawn ex_ifs withdrawn_hist = true
+  /\ map (fun o => (existsb is_found_evt o, questions_of o)) (run_history ex_ifs withdrawn_hist)
+     = [(false, []); (true, []); (false, []); (false, []); (false, [])]
+  /\ existsb is_followup_fail (viol_C04 ex_ifs withdrawn_hist (ex_wakes withdrawn_hist) (map obs_of (run_history ex_ifs withdrawn_hist))) = true
+  /\ known_found_withdrawn ex_ifs ex_follow = false /\ known_found_withdrawn ex_ifs ex_hist = false
+  /\ known_found_withdrawn ex_ifs lastsec_hist = false.
+Proof. exact found_withdrawn_witness. Qed.
+
 (* Non-vacuity: histories that pass chk_C04 - PTR only: questions (instance, ANY) exactly in the
    iterations at +500, +1000, +1500; and the announce / update / goodbye history of C03. *)
 Example C04_example_followup :
@@ -443,6 +515,11 @@ Print Assumptions C04_iteration_complete_is_up.
 Print Assumptions C04_turned_alive_is_updated.
 Print Assumptions C04_known_refresh_completes_witness.
 Print Assumptions C04_complete_is_up_example.
+Print Assumptions C04_followups_as_specified_partial.
+Print Assumptions C04_iteration_found_unresolved.
+Print Assumptions C04_queued_due_is_tried.
+Print Assumptions C04_tried_asks_expected.
+Print Assumptions C04_known_found_withdrawn_witness.
 Print Assumptions C04_known_dotted_witness.
 Print Assumptions C04_known_last_second_refresh_witness.
 Print Assumptions C04_found_and_resolved_refuted.
